@@ -240,6 +240,18 @@ impl Semaphore {
     }
 }
 
+#[cfg(feature = "verif-hooks")]
+impl Semaphore {
+    /// Permit count and `event` listeners.
+    #[doc(hidden)]
+    pub fn __verif_snapshot(&self) -> crate::__verif::Snapshot {
+        crate::__verif::Snapshot {
+            words: std::vec![self.count.load(Ordering::SeqCst)],
+            events: std::vec![crate::__verif::event(&self.event)],
+        }
+    }
+}
+
 easy_wrapper! {
     /// The future returned by [`Semaphore::acquire`].
     pub struct Acquire<'a>(AcquireInner<'a> => SemaphoreGuard<'a>);
